@@ -46,6 +46,15 @@ def cred_cell(cell):
             if group is not None:
                 c.set("group", group)
             c.set("initgroups", initgroups)
+            calls = []
+            real_initgroups = os.initgroups
+
+            def spy(name, g):
+                calls.append((name, g))
+                return real_initgroups(name, g)
+            os.initgroups = spy
+            if start == "root":
+                os.setgroups([0, 42])        # the master's own supplementary groups: must not survive initgroups
             if start == "gid-preset":
                 # the master already runs with the configured group (systemd Group= without User=, `sg`, docker --user 0:gid)
                 # and with supplementary groups of its own
@@ -56,9 +65,9 @@ def cred_cell(cell):
                 os.setegid(c.gid)
             try:
                 util.set_owner_process(c.uid, c.gid, initgroups=c.initgroups)
-                out = repr((c.uid, c.gid, os.getresuid(), os.getresgid(), tuple(sorted(os.getgroups())), None))
+                out = repr((c.uid, c.gid, os.getresuid(), os.getresgid(), tuple(sorted(os.getgroups())), None, calls))
             except Exception as e:
-                out = repr((c.uid, c.gid, os.getresuid(), os.getresgid(), tuple(sorted(os.getgroups())), "%s: %s" % (type(e).__name__, e)))
+                out = repr((c.uid, c.gid, os.getresuid(), os.getresgid(), tuple(sorted(os.getgroups())), "%s: %s" % (type(e).__name__, e), calls))
             os.write(w, out.encode())
         finally:
             os._exit(0)
@@ -71,7 +80,7 @@ def cred_cell(cell):
         data += d
     os.close(r)
     os.waitpid(pid, 0)
-    cuid, cgid, ruid, rgid, groups, err = eval(data.decode())
+    cuid, cgid, ruid, rgid, groups, err, calls = eval(data.decode())
     if err:
         return ("set-owner-raised", "user=%r group=%r initgroups=%s start=%s: %s" % (user, group, initgroups, start, err))
     master_groups = tuple(sorted(os.getgroups()))
@@ -81,6 +90,10 @@ def cred_cell(cell):
         return ("gid-not-set" + (":initgroups" if initgroups else ""), "user=%r group=%r initgroups=%s: (r,e,s)gid=%r, configured gid %d" % (user, group, initgroups, rgid, cgid))
     if initgroups and user is not None and group is not None and cgid != 0 and user != 4242:
         want = expected_groups(cuid, cgid)
+        name = pwd.getpwuid(cuid).pw_name
+        if calls and any(c_[0] != name for c_ in calls):
+            return ("supplementary-groups:initgroups-for-another-account", "user=%r (uid %d, account %r) group=%r: os.initgroups was called as %r" % (
+                user, cuid, name, group, calls))
         if groups != want:
             return ("supplementary-groups" + ("" if start == "root" else ":master-has-the-group-already"),
                     "user=%r group=%r initgroups, master identity %s: groups=%r expected %r" % (user, group, start, groups, want))
@@ -163,15 +176,22 @@ def real_cell(cell):
     wc, user, group, initgroups, history = cell
     uid, gid = uid_of(user), gid_of(group)
     late_identity = history == "hup-adds-identity"
+    via_env = history == "usr2-env"          # the identity is configured through GUNICORN_CMD_ARGS, not the file
+    if via_env:
+        history = "usr2"
     extra = {"umask": 0o117}
-    if not late_identity:
+    env = None
+    if via_env:
+        toks = (["--user", str(user)] if user is not None else []) + (["--group", str(group)] if group is not None else []) + (["--initgroups"] if initgroups else [])
+        env = {"GUNICORN_CMD_ARGS": " ".join(toks)}
+    elif not late_identity:
         if user is not None:
             extra["user"] = user
         if group is not None:
             extra["group"] = group
         if initgroups:
             extra["initgroups"] = True
-    s = rp.Server(worker_class=wc, workers=2, bind="unix", graceful_timeout=2, timeout=3, extra=extra, threads=2 if wc == "gthread" else None)
+    s = rp.Server(worker_class=wc, workers=2, bind="unix", graceful_timeout=2, timeout=3, extra=extra, threads=2 if wc == "gthread" else None, env=env)
     os.chmod(s.dir, 0o755)
     try:
         if not s.start():
@@ -242,7 +262,7 @@ def real_cell(cell):
 def real_cells(thorough):
     cells = []
     base = [("www-data", "www-data", False), ("nobody", None, False), (None, "nogroup", False), (33, 65534, False), ("www-data", "nogroup", True)]
-    hist = ("start", "kill-worker", "hup", "hup-adds-identity", "usr2")
+    hist = ("start", "kill-worker", "hup", "hup-adds-identity", "usr2", "usr2-env")
     for i, (u, g, ig) in enumerate(base):
         for j, h in enumerate(hist):
             classes = ("sync", "gthread", "gevent", "eventlet") if thorough else (("sync",) + (("gthread", "gevent", "eventlet")[(i + j) % 3],))
